@@ -2,6 +2,7 @@
 // Harness TUs are compiled with -DNDEBUG -DSPQLIOS_VERIF like the library (struct layouts depend on NDEBUG).
 #pragma once
 #include <cstdint>
+#include <cstdlib>
 #include <map>
 #include <tuple>
 #include <vector>
@@ -96,6 +97,8 @@ inline Bystanders& bystanders() {
 }
 inline void maybe_bystander() {
   Bystanders& b = bystanders();
+  static const bool off = getenv("VERIF_NO_BYSTANDERS") != nullptr;  // sensitivity measurements only (seeded/NOTES.md round 4)
+  if (off) return;
   const uint64_t c = vh::g_case_hash;
   if (c == 0 || c == b.last_case) return;  // once per case, at the first object the case obtains
   b.last_case = c;
